@@ -4,9 +4,10 @@
 From Coq Require Import List Bool Arith NArith ZArith String.
 From Coq.Strings Require Import Byte.
 From Verif.Base Require Import Bytes Outcome Str.
-From Verif.Model Require Import IE Codec Record SetB Msg Exporter Rfc7011.
-From Verif.Proofs Require Import SetB_lemmas Exporter_lemmas C08_lemmas Rfc_lemmas RfcData_lemmas RfcApi_lemmas C09_oracle.
-From Verif.Driver Require Import Show SetShow HistShow RfcCheck C02drv.
+From Verif.Model Require Import IE Codec Record SetB Msg Exporter ExpObj Rfc7011.
+From Verif.Proofs Require Import SetB_lemmas Exporter_lemmas C08_lemmas Rfc_lemmas RfcData_lemmas RfcApi_lemmas C09_oracle
+  ExpObj_lemmas C02gen_lemmas Gen_oracle C02_refuted.
+From Verif.Driver Require Import Show SetShow HistShow HistObj RfcCheck C02drv.
 Import ListNotations.
 Local Open Scope N_scope.
 
@@ -21,6 +22,18 @@ Theorem C02_frame : forall widths st s t bytes,
   blen bytes = 20 + blen (body_of s).
 Proof. exact wellformed_frame. Qed.
 Print Assumptions C02_frame.
+
+(* ... and for every set state of a REUSED set object whose element objects may have changed
+   since they were added (InvM: header of 4 bytes, set length = 4 + the record lengths recorded
+   at add time - the invariant of every set object in every object-level history, C02_histories
+   below): the frame is the same *)
+Theorem C02_frame_any_set_state : forall widths st s t bytes,
+  InvM s -> st_wf st -> r_wire (send_set cur st s t) = Some bytes ->
+  rfc_parse widths bytes =
+    after_frame widths (x_obs st) (seq_next (x_seq st) s) t (hdr_id s) (body_of s) /\
+  blen bytes = 20 + blen (body_of s).
+Proof. exact wellformed_frame_m. Qed.
+Print Assumptions C02_frame_any_set_state.
 
 (* Template sets, complete: every transmitted template set (any number of records, any
    elements with id < 2^15, any enterprise number, any length) parses to set id 2 and, per
@@ -108,6 +121,75 @@ Theorem C02_wellformed : forall widths st ops t bytes,
 Proof. exact wellformed_message. Qed.
 Print Assumptions C02_wellformed.
 
+(* ---- set objects that are reused, element objects that are shared and changed, refresh ----
+   (Model/ExpObj.v: the application's objects. A history is any sequence of: builder operations
+   on a new or on an earlier set object - with or without ResetSet -, AddRecord with the element
+   objects of an earlier AddRecord, SetXxxValue on element objects that records already hold,
+   GetBuffer calls, SendSet, the refresh ticker, reconnects.) *)
+
+(* the general message theorem: for ANY set state with the bookkeeping invariant whose template
+   records have the builder's buffers - which is every set state any history can present to
+   SendSet - a transmitted message in scope is well-formed. In scope (c02_scope_m): header id 2
+   and template records within the specifier ranges, or a data set (PrepareSet(Data)), header
+   id >= 256, whose records are data records of the template's widths with their CURRENT values
+   well-typed. That a record's current values fill exactly the length it was added with is not
+   a hypothesis: the repaired sanity check refuses the set otherwise (C02_refuted_reclen_orig). *)
+Theorem C02_wellformed_any_set_state : forall widths st s t bytes,
+  InvM s -> (forall r, In r (s_recs s) -> tshape r) ->
+  st_wf st -> r_wire (send_set cur st s t) = Some bytes -> c02_scope_m widths s ->
+  exists body, expected_body s = Some body /\
+  rfc_parse widths bytes =
+    Some (mkWM 10 (blen bytes) (t mod 2 ^ 32) (seq_next (x_seq st) s mod 2 ^ 32) (x_obs st mod 2 ^ 32)
+               (hdr_id s) (blen bytes - 16) body).
+Proof. exact wellformed_message_m. Qed.
+Print Assumptions C02_wellformed_any_set_state.
+
+(* every set state SendSet gets to see in any object-level history satisfies those invariants,
+   the exporter state stays well-formed, and the call made is send_set on that state *)
+Theorem C02_reachable_set_states : forall h w,
+  WInv w -> Forall (out_ok cur) (grun cur w h).
+Proof. exact grun_inv. Qed.
+Print Assumptions C02_reachable_set_states.
+
+(* together, for every history from any well-formed world (WInv_init: a fresh exporter): every
+   message a SendSet writes for a set in scope is well-formed; a refresh of a UDP exporter whose
+   registered templates are in scope (tpl_entry_ok: 256 <= id < 2^16, < 2^16 elements within the
+   specifier ranges) writes one well-formed template message per registered template - set id 2,
+   one record (id, one specifier per element), the UNCHANGED sequence number -, for a prefix of
+   the map in the model's order and for all of it unless a send fails; each message depends on
+   its own entry only (refresh_msg_ok), so the random iteration order of the Go map only
+   permutes them; the exporter state afterwards is what it was *)
+Theorem C02_histories : forall widths h w,
+  WInv w -> Forall (out_wellformed widths) (grun cur w h).
+Proof. exact histories_wellformed. Qed.
+Print Assumptions C02_histories.
+
+Theorem C02_refresh : forall widths t m st ss,
+  st_wf st -> Forall tpl_entry_ok m -> (forall p, In p m -> In p (x_tpls st)) ->
+  make_sets m = Ok ss ->
+  let xs := send_all cur st ss t in
+  exists k,
+    Forall2 (fun p x => forall bytes, r_wire x = Some bytes -> refresh_msg_ok widths st t (fst p) (fst (snd p)) bytes)
+            (firstn k m) xs /\
+    (Forall (fun x => exists n, r_res x = Ok n) xs -> k = List.length m /\ last_state st xs = st).
+Proof. exact refresh_messages. Qed.
+Print Assumptions C02_refresh.
+
+(* the histories of the theorems above (one fresh set per call, nothing shared) are the
+   object-level histories in which every event opens a new set object *)
+Theorem C02_plain_histories_are_a_special_case : forall fx h w,
+  map sent_of (grun fx w (map plain_event h)) = map Some (run_hist fx (w_exp w) h).
+Proof. exact grun_plain. Qed.
+Print Assumptions C02_plain_histories_are_a_special_case.
+
+(* On the faithful model of the code BEFORE the record-length repair the statement is false: the
+   application reuses its element objects with a shorter string, the first record goes out with
+   zero octets behind its fields (witness replayed on the real unrepaired code, corpus/C02) *)
+Theorem C02_refuted_reclen_orig :
+  c02_refutes (mkFixes true true true false true) case_shorter = true /\ c02_satisfies cur case_shorter = true.
+Proof. split; [exact refuted_reclen|exact repaired_reclen]. Qed.
+Print Assumptions C02_refuted_reclen_orig.
+
 (* "set id 2 for templates and the template id for data": the id in the header of a set
    prepared once and then filled is the one PrepareSet was given *)
 Theorem C02_set_id : forall ty id rest,
@@ -143,10 +225,20 @@ Qed.
    the independent parser's reading equals the expectation built from the case) holds on the
    model's own observation of EVERY case whose sets satisfy case_set_ok (Driver/RfcCheck.v: one
    PrepareSet per set, values of data records are Go values of their elements' kinds). *)
-Theorem C02_oracle_on_model : forall c,
+Theorem C02_oracle_on_model_h : forall c,
   forallb (fun ds => case_set_ok (set_of (ops_of ds))) (hc_sends c) = true ->
-  C02_holds_on c (hist_model cur c) = true.
+  C02_holds_on_h c (hist_model cur c) = true.
 Proof. exact c02_oracle_on_model. Qed.
+Print Assumptions C02_oracle_on_model_h.
+
+(* The oracle of the check on object-level histories (C02_holds_on, Driver/C02drv.v: per SendSet
+   as above, on the set as SendSet saw it; per refresh every message well-formed for the set
+   MakeTemplateSet builds for some registered template; nothing stray at a reconnect) holds on
+   the model's own observation of EVERY case within c02_wf: every set sent satisfies
+   case_set_ok, no refresh with a template MakeTemplateSet cannot build, no panic. *)
+Theorem C02_oracle_on_model : forall c,
+  c02_wf c (fst (gmodel cur c)) = true -> C02_holds_on c (gmodel cur c) = true.
+Proof. exact c02_oracle_on_model_g. Qed.
 Print Assumptions C02_oracle_on_model.
 
 (* non-vacuity / concrete evidence for the data clause: one template, two records with a
@@ -155,7 +247,26 @@ Definition c02_case : string :=
   "tcp 5 0 full S P T 300 A 1 300 3 7 6 0 2 i16 0 9 13 29305 65535 str - 4 19 0 16 ip nil ; S P D 300 A 1 300 3 7 6 0 2 i16 -2 9 13 29305 65535 str pat 255 3 4 19 0 16 ip hex 0a000001 A 2 300 3 7 6 0 2 i16 513 9 13 29305 65535 str hex 4142 4 19 0 16 ip hex 20010db8000000000000000000000001 ;".
 Example C02_nonvacuous :
   match parse_hcase (tokens c02_case) with
-  | Some c => let m := hist_model cur c in c02_wf c (fst m) && C02_holds_on c m
+  | Some c => let m := hist_model cur c in c02_wf_h c (fst m) && C02_holds_on_h c m
   | None => false
   end = true.
 Proof. vm_compute. reflexivity. Qed.
+
+(* non-vacuity of the object-level statements: one set object used for three messages with a
+   reset in between and sent once more as it is; element objects reused with values of the same
+   length (well-formed, both records carry the later values) and, after a GetBuffer, changed
+   again (the cached bytes go out); a UDP refresh of two templates *)
+Definition c02_gcase : string :=
+  "udp 5 7 full S P T 300 A 1 300 2 5 13 0 65535 str - 6 2 0 2 u16 0 ; S P T 301 A 2 301 1 7 4 29305 8 u64 0 ; S P D 300 A 1 300 2 5 13 0 65535 str hex 616263 6 2 0 2 u16 4369 M 2 0 str hex 78797a M 2 1 u16 8738 AS 2 300 2 ; C 2 ; C 2 R P D 301 A X3 301 1 7 4 29305 8 u64 9 G M 5 0 u64 10 ; C 2 R P D 300 AS 1 300 2 ; W".
+Example C02_general_nonvacuous :
+  match parse_gcase (tokens c02_gcase) with
+  | Some c => let m := gmodel cur c in
+              c02_wf c (fst m) && C02_holds_on c m &&
+              list_eqb String.eqb
+                (map (fun o => match o with GOSend s => show_sres (so_res s) | GORefresh ws _ => show_nat (List.length ws) | GOReconn _ => "x"%string end) (fst m))
+                ["r=ok:32"; "r=ok:32"; "r=ok:32"; "r=ok:32"; "r=ok:28"; "r=ok:26"; "2"]%string
+  | None => false
+  end = true.
+Proof. vm_compute. reflexivity. Qed.
+Example C02_world_nonvacuous : WInv (init_world (mkExp 7 0 [] true)).
+Proof. apply WInv_init. reflexivity. Qed.
